@@ -58,10 +58,10 @@ theorem readSpecs_mono (n : Nat) (acc : List Spec) : Mono (fun r => readSpecs n 
         · left; exact hs
         · right; exact ⟨f', by simp only [readSpecs, hf1]; exact hf', hr'⟩
 
-theorem dataLen_mono (specLen ty : Nat) : Mono (fun r => dataLen r specLen ty) := by
+theorem dataLen_mono (specLen : Nat) : Mono (fun r => dataLen r specLen) := by
   intro s t f h res t' hg
   simp only [dataLen] at hg
-  by_cases hv : (ty = tString ∨ ty = tOctets) ∧ specLen = 65535
+  by_cases hv : specLen = 65535
   · rw [if_pos hv] at hg
     split at hg
     · left; simp at hg; exact hg.1.symm
@@ -98,9 +98,9 @@ theorem decFields_mono (fs : List Spec) (acc : Record) : Mono (fun r => decField
       simp only [Prod.mk.injEq] at hg
       right; exact ⟨f, by simp only [decFields_cons, hk, hg.1], hg.2 ▸ h⟩
     · rename_i fid ty hk
-      generalize hp : dataLen t x.len ty = pr at hg
+      generalize hp : dataLen t x.len = pr at hg
       obtain ⟨r0, t1⟩ := pr
-      rcases dataLen_mono x.len ty s t f h r0 t1 hp with hs | ⟨f1, hf1, hr1⟩
+      rcases dataLen_mono x.len s t f h r0 t1 hp with hs | ⟨f1, hf1, hr1⟩
       · subst hs; simp only [Prod.mk.injEq] at hg; left; exact hg.1.symm
       · simp only at hf1
         cases r0 with
